@@ -599,7 +599,7 @@ impl Engine for C17 {
 
     fn info(&self) -> EngineInfo {
         EngineInfo {
-            rule: "one run = a generated gluon main program that creates 1-2 channels, 1-2 references, 0-3 lazy values (thunk bodies: constant, yield-then-constant, force another lazy (incl. itself), fail) and spawns 0-3 coroutines with generated straight-line bodies over {send, recv, load, store, force, yield}; the main script interleaves its own operations with `resume t_i` in a generated order (the schedule). Every observation is reported through the harness extern `sim.obs` and compared, in order, with the log predicted by an executable model (FIFO queues, cells, Thunk|Evaluating(owner)|Value|Failed lazies, Ready|Suspended|Blocked|Done|Failed coroutines). Forced collections perturb the run. The main future is polled by the simulator's executor: pending with no wake-up requested = hang. Non-trivial = at least one resume and at least 4 observations; distinct = distinct workload hash.",
+            rule: "one run = a generated gluon main program that creates 1-2 channels, 1-2 references, 0-3 lazy values (thunk bodies: constant, yield-then-constant, force another lazy (incl. itself), fail) and spawns 0-3 coroutines with generated straight-line bodies over {send, recv, load, store, force, yield}; the main script interleaves its own operations with `resume t_i` in a generated order (the schedule). (One run in ten is of class `cells` instead: std.reference / std.st.reference cells holding field-less constructors, constructors with fields or booleans, a generated sequence of stores and loads, model = last stored value.) Every observation is reported through the harness extern `sim.obs` and compared, in order, with the log predicted by an executable model (FIFO queues, cells, Thunk|Evaluating(owner)|Value|Failed lazies, Ready|Suspended|Blocked|Done|Failed coroutines). Forced collections perturb the run. The main future is polled by the simulator's executor: pending with no wake-up requested = hang. Non-trivial = at least one resume and at least 4 observations; distinct = distinct workload hash.",
             real: vec!["std.channel/std.reference/std.lazy/std.thread primitives (vm/src/channel.rs, reference.rs, lazy.rs), coroutine spawn/resume/yield, Thread::resume, async extern functions and their poll_fns, io.catch, the interpreter"],
             stubbed: vec!["executor (simulator polls the main future itself; wake-ups are a flag)", "the scheduler of coroutines is the generated main script"],
             not_exercised: vec!["spawn_on / join (tokio-less child OS tasks are covered by C14)", "std.thread.sleep"],
@@ -616,6 +616,9 @@ impl Engine for C17 {
     fn generate(&self, rng: &mut Rng, _tier: &str) -> Value {
         if rng.chance(2, 5) {
             return crate::props::c17b::generate(rng);
+        }
+        if rng.chance(1, 6) {
+            return crate::props::c17c::generate(rng);
         }
         let nch = 1 + rng.below(2);
         let nref = 1 + rng.below(2);
@@ -691,6 +694,9 @@ impl Engine for C17 {
     fn run(&self, w: &Value) -> Result<(), Violation> {
         if w["class"].as_str() == Some("threads") {
             return crate::props::c17b::run(w);
+        }
+        if w["class"].as_str() == Some("cells") {
+            return crate::props::c17c::run(w);
         }
         let spec = Spec::from_json(w);
         let mut model = Model::new(&spec);
